@@ -24,6 +24,29 @@ CHECKS = {
     ),
 }
 
+EEMS_NOTE = BASE_NOTE + (" Arithmetic is exact rationals in the model; a float result within 1e-9 (relative) of a rational with denominator <= 20000 is identified with it; "
+                         "commands are driven through execute() with finished producer commands (the full pipeline is C02's subject).")
+CHECKS.update({
+    "C03": dict(engine="eems", technique="TLC: MaskRule invariant on EEMSOps.tla over EEMSCases families + TLC validation (EEMSOpsTrace.tla) of every observed result mask; payload variants compared bit-for-bit",
+                text="TLC checks on the rational semantics that a result cell is missing iff an input cell there is missing or the operation is undefined, for every lattice point/short array of every family (all 33 data commands); every case is executed on the real commands with four different payloads beneath the missing cells (including arrays produced by the real CSV reader) and TLC validates each observed mask; results across payload variants must be bit-identical.",
+                design="4/C03, 2.7", note=EEMS_NOTE),
+    "C04": dict(engine="eems", technique="TLC: FuzzyInRange invariant on EEMSOps.tla + OutOfRange clause of EEMSOpsTrace.tla on every observation; exact range check on raw floats; stretched random parameters",
+                text="TLC checks InRange for the 14 fuzzy-producing commands on lattices that exceed [-1,1] for inputs, weights (negative, zero-sum), thresholds, category and curve values; every case is executed and TLC validates the observation (OutOfRange clause); raw float results are compared exactly with the bounds; a random pass stretches parameters up to 1e6.",
+                design="4/C04, 2.7", note=EEMS_NOTE),
+    "C05": dict(engine="eems", technique="TLC: Equivariant invariant (Sem commutes with every cell permutation) + TLC validation of rank-2/rank-3 reshaped and permuted executions against the un-arranged case",
+                text="Every family is executed 1-D and again reshaped to rank-2/rank-3 grids (length-1 axes included) and under common permutations; TLC validates each arrangement's observation against EEMSOps.Sem of the original case and checks Equivariant on the array-level families; only differences between the rearranged run and the 1-D baseline are findings.",
+                design="4/C05, 2.7", note=EEMS_NOTE),
+    "C06": dict(engine="eems", technique="TLC: EEMS operator definitions + algebra invariants (FuzzyAlgebra, OrderInvariant) on the k/4 lattice; TLC validation of all executed lattice points; off-lattice metamorphic identities",
+                text="TLC enumerates every lattice point for 1-3 inputs (thorough 4-5) with all k, directions and a weight lattice, checks the algebra on EEMSOps.Sem in every state, and validates the real operators' results at every point; random float data are additionally checked for order invariance, Sel(1)=Or/And, Sel(n)=Union and De Morgan.",
+                design="4/C06, 2.7", note=EEMS_NOTE),
+    "C07": dict(engine="eems", technique="TLC: arithmetic definitions + ArithAlgebra/OrderInvariant invariants over every int/float kind assignment; TLC validation of all executed points and error entries",
+                text="TLC enumerates lattice points for 1-3 inputs (thorough 4) under every assignment of integer/float element kinds, weight vectors, zero divisors and the error entries (weight count, empty list, mixed shapes), checks commutativity and identities on Sem, and validates the real commands' values, masks and error classes.",
+                design="4/C07, 2.7", note=EEMS_NOTE),
+    "C08": dict(engine="eems", technique="TLC: conversion/normalisation definitions + ConvAlgebra/ConvArrayAlgebra invariants; TLC validation of all executed cells and short arrays",
+                text="TLC enumerates cells x threshold pairs/directions/category tables/curves (all control-point orders) and every short array for the data-dependent conversions, checks the documented relations on Sem (thresholds -> +1/-1, inverse, variant = clamp of Normalize variant, order irrelevance, monotonicity) and validates the 17 real commands' results.",
+                design="4/C08, 2.7", note=EEMS_NOTE + " z-score commands only on data with rational standard deviation; NormalizeZScore default thresholds excluded (docs and code disagree)."),
+})
+
 NOT_YET = "check not built yet (build in progress; see DESIGN.md section 4b build order)"
 
 
@@ -58,6 +81,8 @@ def main():
         "engines": [
             {"name": "engine", "path": "harness/engine.py", "serves_properties": ["C01", "C14"],
              "kind_free_text": "TLC (spec/MPRun.tla, spec/MPRunAbsTrace.tla) + replay/tracing harness"},
+            {"name": "eems", "path": "harness/eems.py", "serves_properties": ["C03", "C04", "C05", "C06", "C07", "C08"],
+             "kind_free_text": "TLC (spec/Rat.tla, EEMSOps.tla, EEMSCases.tla, EEMSOpsTrace.tla) + packed execution of the real commands"},
         ],
         "checks": checks,
         "notes": "Model-based verification with explicit TLA+ specifications (spec/*.tla) decided by TLC and bound to the code by replay and trace validation; see DESIGN.md. known_findings.json lists genuine defects (open) and repaired ones (fixed).",
